@@ -40,5 +40,49 @@ def optHex : Option Bytes → String
 
 def listHex (vs : List Bytes) : String := "L:" ++ ",".intercalate (vs.map hexEncode)
 
+/-- Compact byte-string syntax (same greedy algorithm as `gen::enc` in the harness): segments joined
+    by `+`, each plain hex or `hh*count` for a run of at least 16 equal bytes. -/
+def encBytes (bs : Bytes) : String := Id.run do
+  let a := bs.toArray
+  let n := a.size
+  let mut segs : Array String := #[]
+  let mut pend : String := ""
+  let mut i := 0
+  while i < n do
+    let b := a[i]!
+    let mut j := i
+    while j < n && a[j]! == b do
+      j := j + 1
+    if j - i ≥ 16 then
+      if !pend.isEmpty then
+        segs := segs.push pend
+        pend := ""
+      segs := segs.push (hexEncode [b] ++ "*" ++ toString (j - i))
+      i := j
+    else
+      pend := pend.push (hexNib (b >>> (4 : UInt8))) |>.push (hexNib (b &&& (15 : UInt8)))
+      i := i + 1
+  if !pend.isEmpty then
+    segs := segs.push pend
+  return "+".intercalate segs.toList
+
+def decBytes (s : String) : Option Bytes := do
+  let mut out : Array UInt8 := #[]
+  for seg in splitNonEmpty s "+" do
+    match seg.splitOn "*" with
+    | [h, n] =>
+      let b ← hexDecode h
+      let k ← n.toNat?
+      match b with
+      | [x] => out := out ++ Array.replicate k x
+      | _ => none
+    | [h] =>
+      let b ← hexDecodeAux h.toList #[]
+      out := out ++ b
+    | _ => none
+  return out.toList
+
+def parseSizes (s : String) : Option (List Nat) := (splitNonEmpty s ",").mapM String.toNat?
+
 end Drv
 end Servlin
